@@ -41,6 +41,10 @@ pub enum Fault {
     /// replace the n-th datagram (if it is a response) by an error with this code
     Error(usize, i32),
     StripToken(usize),
+    /// rewrite the `nodes` of the n-th datagram (if it is a response carrying one): 0 a contact with port 0
+    /// closest to everything is appended, 1 the requester's own address under a made-up id, 2 0.0.0.0:6881,
+    /// 3 twenty contacts at unreachable addresses, 4 the list cut to a length that is no multiple of 26
+    HostileNodes(usize, u8),
     /// crash the peer that sends / receives the n-th datagram, at that moment
     CrashPeer(usize),
     DropTwo(usize, usize),
@@ -223,6 +227,45 @@ fn run_script(script: &Script, fault: Fault) -> Outcome {
                     let mut whole = q.whole.clone();
                     let mut r = whole.remove("r")?;
                     r.remove("token")?;
+                    whole.set("r", r);
+                    hit(&mut c);
+                    Some(vec![(whole.encode(), info.latency)])
+                }
+                Fault::HostileNodes(k, variant) if k == n => {
+                    let q = Krpc::parse(info.bytes)?;
+                    if q.y != b'r' {
+                        return None;
+                    }
+                    let mut whole = q.whole.clone();
+                    let mut r = whole.remove("r")?;
+                    let mut nodes = r.get("nodes")?.as_bytes()?.to_vec();
+                    let seedb = (n as u8).wrapping_mul(37);
+                    let mut contact = |id_fill: u8, ip: [u8; 4], port: u16| {
+                        let mut v = vec![id_fill; 20];
+                        v[19] = seedb;
+                        v.extend_from_slice(&ip);
+                        v.extend_from_slice(&port.to_be_bytes());
+                        v
+                    };
+                    match variant {
+                        0 => nodes.extend(contact(seedb, [61, 2, 3, 4], 0)),
+                        1 => {
+                            let me = info.to;
+                            nodes.extend(contact(seedb ^ 0x55, me.ip().octets(), me.port()))
+                        }
+                        2 => nodes.extend(contact(seedb, [0, 0, 0, 0], 6881)),
+                        3 => {
+                            nodes.clear();
+                            for i in 0..20u8 {
+                                nodes.extend(contact(seedb.wrapping_add(i), [203, 0, 113, 1 + i], 6881));
+                            }
+                        }
+                        _ => {
+                            let keep = nodes.len().saturating_sub(7);
+                            nodes.truncate(keep);
+                        }
+                    }
+                    r.set("nodes", B::Bytes(nodes));
                     whole.set("r", r);
                     hit(&mut c);
                     Some(vec![(whole.encode(), info.latency)])
@@ -491,7 +534,7 @@ pub fn run(a: &Args) -> Report {
                 }
             }
             if k % 3 == 0 {
-                for f in [Fault::Error(k, *rng.pick(&[203, 205, 301, 302, 201])), Fault::StripToken(k), Fault::CrashPeer(k)] {
+                for f in [Fault::Error(k, *rng.pick(&[203, 205, 301, 302, 201])), Fault::StripToken(k), Fault::CrashPeer(k), Fault::HostileNodes(k, ((k / 3) % 5) as u8)] {
                     if let Some(o) = run_script_guarded(&mut r, &script, f) {
                         judge(&mut r, &script, f, &o);
                     }
@@ -524,6 +567,8 @@ fn parse_fault(s: &str) -> Fault {
         Fault::Error(n(0), nums.get(1).copied().unwrap_or(203) as i32)
     } else if s.starts_with("StripToken(") {
         Fault::StripToken(n(0))
+    } else if s.starts_with("HostileNodes(") {
+        Fault::HostileNodes(n(0), n(1) as u8)
     } else if s.starts_with("CrashPeer(") {
         Fault::CrashPeer(n(0))
     } else if s.starts_with("DropTwo(") {
